@@ -387,6 +387,9 @@ class Evaluator(object):
 
     # ---- control flow --------------------------------------------------------------------------
     def st_If(self, s, st, frame):
+        if _guarded_noop_store(s):
+            # `if X.values[i] != v: X.values[i] = v` stores v into the cell whenever that changes it: the plain store
+            return self.st_Assign(s.body[0], st, frame)
         cond = self.ev(s.test, st, frame)
         if self.ignore_refresh and not s.orelse and self._is_tree_refresh(s, cond, st, frame):
             return
@@ -2079,6 +2082,27 @@ def _cmpop(op):
         ast.Eq: "==", ast.NotEq: "!=", ast.Lt: "<", ast.LtE: "<=", ast.Gt: ">", ast.GtE: ">=", ast.Is: "is", ast.IsNot: "isnot", ast.In: "in",
         ast.NotIn: "notin",
     }[type(op)]
+
+
+def _guarded_noop_store(s):
+    if s.orelse or len(s.body) != 1 or not isinstance(s.body[0], ast.Assign):
+        return False
+    a = s.body[0]
+    t = s.test
+    if len(a.targets) != 1 or not isinstance(a.targets[0], ast.Subscript) or not _simple_pure_expr(a.value):
+        return False
+    if not (isinstance(t, ast.Compare) and len(t.ops) == 1 and isinstance(t.ops[0], ast.NotEq)):
+        return False
+    tgt = a.targets[0]
+    base = tgt.value
+    if isinstance(base, ast.Call) and isinstance(base.func, ast.Name) and base.func.id.endswith("writable") and len(base.args) == 1 and not base.keywords:
+        base = ast.Attribute(value=base.args[0], attr="values", ctx=ast.Load())  # the writable view of a history is its values array
+    if not (_simple_pure_expr(base) and _simple_pure_expr(tgt.slice)):
+        return False
+    cell = ast.dump(ast.Subscript(value=base, slice=tgt.slice, ctx=ast.Load()))
+    v = ast.dump(a.value)
+    L, R = ast.dump(t.left), ast.dump(t.comparators[0])
+    return (L == cell and R == v) or (R == cell and L == v)
 
 
 def _assigned_in(stmts):
